@@ -53,7 +53,7 @@ MCLevelsCli == [l \in 0..2 |-> CASE l = 0 -> {"absent", "def", "autodef", "star"
                                  [] l = 2 -> {"absent", "irrelevant", "def", "def2", "override"}]
 MCSameCli == {"none", "def", "override"}
 MCExtraCli == SUBSET {"cs", "o", "tp"}
-MCUseCli == {"tp", "um"}
+MCUseCli == {"tp", "um", "fp"}
 MCUFilesU == {"u"}
 MCEmitCli == {"goto", "refs", "unused"}
 MCLevelsChain == [l \in 0..2 |-> {"absent", "def", "override"}]
